@@ -464,6 +464,154 @@ pub fn invalidation_race(invalidators: usize, writers: usize, readers: usize, ro
     Outcome { evaluations: gets.len() as u64, nontrivial: decided, classes, sample: params, violation }
 }
 
+/// One thread runs `insert(k, v); invalidate_all(); get(k); contains_key(k)` in a loop while
+/// reader threads keep looking the same keys up. The round is decided only if the wall clock
+/// moved strictly between the return of the insert and the call of invalidate_all (then the
+/// insert's clock reading is strictly earlier than invalidate_all's).
+pub fn invalidate_beside_readers(readers: usize, rounds: u64, nkeys: u64) -> Outcome {
+    use std::time::Instant;
+    let cache: Cache<u64, u64> = Cache::builder().build();
+    let done = Arc::new(AtomicBool::new(false));
+    let mut rhs = Vec::new();
+    for _ in 0..readers {
+        let (c, d) = (cache.clone(), Arc::clone(&done));
+        rhs.push(std::thread::spawn(move || {
+            let mut hits = 0u64;
+            while !d.load(Ordering::Acquire) {
+                for k in 0..nkeys {
+                    if c.get(&k).is_some() {
+                        hits += 1;
+                    }
+                }
+            }
+            hits
+        }));
+    }
+    let params = serde_json::json!({"workload": "invalidate_beside_readers", "readers": readers, "rounds": rounds, "keys": nkeys});
+    let mut violation = None;
+    let mut decided = 0u64;
+    for r in 0..rounds {
+        let k = r % nkeys;
+        cache.insert(k, r);
+        let a = Instant::now();
+        let mut b = Instant::now();
+        let mut spins = 0;
+        while b <= a && spins < 1000 {
+            b = Instant::now();
+            spins += 1;
+        }
+        cache.invalidate_all();
+        if b <= a {
+            continue;
+        }
+        decided += 1;
+        let g = cache.get(&k);
+        let ck = cache.contains_key(&k);
+        if g.is_some() || ck {
+            violation = Some(viol("C07", format!("round {r}: insert(k{k}, {r}) returned, the clock moved on, invalidate_all() returned, and then get(k{k}) = {g:?}, contains_key(k{k}) = {ck} (while {readers} other threads were reading)"), params.clone()));
+            break;
+        }
+        if r % 256 == 255 {
+            use mini_moka::sync::ConcurrentCacheExt;
+            cache.sync();
+        }
+    }
+    done.store(true, Ordering::Release);
+    let mut hits = 0;
+    for h in rhs {
+        hits += h.join().expect("reader");
+    }
+    let mut classes = BTreeMap::new();
+    classes.insert("invalidate_all_rounds_decided_beside_readers".to_string(), decided);
+    classes.insert("concurrent_reader_hits".to_string(), hits);
+    Outcome { evaluations: decided, nontrivial: decided, classes, sample: params, violation }
+}
+
+/// Writers keep re-inserting a few keys with changing weights (the weight is the value's low
+/// byte) while other threads do nothing but run maintenance. After all threads stopped and
+/// sync() ran, the counters must equal what the cache physically holds, the resident weight
+/// must respect the capacity, and (C03) nothing may have been evicted although everything fits.
+pub fn reweigh_race(prop: &str, writers: usize, syncers: usize, rounds: u64, nkeys: u64, cap: u64) -> Outcome {
+    use mini_moka::sync::ConcurrentCacheExt;
+    let cache: Cache<u64, u64> = Cache::builder().max_capacity(cap).weigher(|_k, v: &u64| (*v & 0xff) as u32).build();
+    let done = Arc::new(AtomicBool::new(false));
+    let barrier = Arc::new(Barrier::new(writers + syncers));
+    let mut shs = Vec::new();
+    for _ in 0..syncers {
+        let (c, d, b) = (cache.clone(), Arc::clone(&done), Arc::clone(&barrier));
+        shs.push(std::thread::spawn(move || {
+            b.wait();
+            let mut n = 0u64;
+            while !d.load(Ordering::Acquire) {
+                c.sync();
+                n += 1;
+            }
+            n
+        }));
+    }
+    let mut whs = Vec::new();
+    for w in 0..writers {
+        let (c, b) = (cache.clone(), Arc::clone(&barrier));
+        whs.push(std::thread::spawn(move || {
+            b.wait();
+            let mut x = splitmix(w as u64 + 17);
+            for r in 0..rounds {
+                x = splitmix(x);
+                // every writer owns its keys: the final value of a key is its writer's last one
+                let k = (w as u64) * nkeys + x % nkeys;
+                let weight = [1u64, 2, 3, 7, 12, 1, 30, 5][(x >> 8) as usize % 8];
+                c.insert(k, (r << 8) | weight);
+            }
+        }));
+    }
+    for h in whs {
+        h.join().expect("writer");
+    }
+    done.store(true, Ordering::Release);
+    let mut syncs = 0;
+    for h in shs {
+        syncs += h.join().expect("syncer");
+    }
+    cache.sync();
+    let params = serde_json::json!({"workload": "reweigh_race", "writers": writers, "syncers": syncers, "rounds": rounds, "keys_per_writer": nkeys, "max_capacity": cap, "sync_calls": syncs});
+    let held: Vec<(u64, u64)> = cache.iter().map(|e| (*e.key(), *e.value())).collect();
+    let phys_w: u64 = held.iter().map(|(_, v)| v & 0xff).sum();
+    let (ec, ws) = (cache.entry_count(), cache.weighted_size());
+    let mut violation = None;
+    match prop {
+        "C10" if ec != held.len() as u64 || ws != phys_w => {
+            violation = Some(viol("C10", format!("after {writers} re-weighing writers and {syncers} maintenance threads stopped and sync() ran: entry_count()/weighted_size() = {ec}/{ws} but the cache holds {} entries weighing {phys_w}", held.len()), params.clone()));
+        }
+        "C04" if phys_w > cap => {
+            violation = Some(viol("C04", format!("after the threads stopped and sync() ran the resident weight {phys_w} exceeds max_capacity {cap}"), params.clone()));
+        }
+        "C03" if (held.len() as u64) < writers as u64 * nkeys && writers as u64 * nkeys * 30 <= cap => {
+            violation = Some(viol("C03", format!("{} keys were written (weights <= 30, max_capacity {cap}: everything fits), nothing was invalidated, yet only {} are resident after the threads stopped and sync() ran", writers as u64 * nkeys, held.len()), params.clone()));
+        }
+        _ => {}
+    }
+    if violation.is_none() && prop == "C03" && phys_w <= cap {
+        // a refill with exactly as many fresh unit-weight keys as still fit must be fully
+        // retained and must evict nothing
+        let n = cap - phys_w;
+        for k in 0..n {
+            cache.insert(1_000_000 + k, 1);
+            if k % 32 == 31 {
+                cache.sync();
+            }
+        }
+        cache.sync();
+        let kept = (0..n).filter(|k| cache.contains_key(&(1_000_000 + k))).count() as u64;
+        let old_kept = held.iter().filter(|(k, _)| cache.contains_key(k)).count();
+        if kept != n || old_kept != held.len() {
+            violation = Some(viol("C03", format!("after the race the cache held weight {phys_w} of max_capacity {cap}; of {n} fresh unit-weight keys (exactly the remaining room) {kept} were retained, and {old_kept} of the {} earlier residents are left", held.len()), params.clone()));
+        }
+    }
+    let mut classes = BTreeMap::new();
+    classes.insert("reweigh_rounds".to_string(), writers as u64 * rounds);
+    Outcome { evaluations: writers as u64 * rounds, nontrivial: writers as u64 * rounds / 64, classes, sample: params, violation }
+}
+
 // ---- C05: time-to-live beside concurrent updates (real clock) ---------------------------
 
 pub fn ttl_race(ttl_ms: u64, nkeys: u64, readers: usize, rounds: u64) -> Outcome {
@@ -729,8 +877,9 @@ pub fn mixed_h(prop: &str, threads: usize, ops: u64, nkeys: u32, cap: Option<u64
 pub const RULE_C04: &str = "real threads inserting distinct fresh unit-weight keys without sync while a monitor thread counts the residents at moments when no insert call is in progress (a gate makes the count atomic); every count must stay <= max_capacity + 384 (the write queue); evaluations = samples taken; non-trivial = samples that observed more than max_capacity resident entries (a real overshoot)";
 pub const RULE_C16: &str = "k writer threads overwrite a fixed key set with increasing per-writer sequence numbers while m threads run full iterations; every pass must yield each key exactly once and never an older value of the same writer than an earlier pass; evaluations = passes; non-trivial = passes during which >= 1 key changed its value";
 pub const RULE_MIXED: &str = "real threads issue seeded insert/get/invalidate/invalidate_all/sync/iterate on a small key set (small capacity, weigher, optional real-time ttl); after all threads stopped and sync() ran the state oracle of the property is evaluated (counters vs. physical snapshot / capacity / drop registry / structural walker); evaluations = operations issued; non-trivial is counted per 64 operations issued concurrently (every block races with the other threads' blocks)";
+pub const RULE_REWEIGH: &str = "real threads: 1-2 writers keep re-inserting their own 1-5 keys with weights from {1,2,3,5,7,12,30} while 1-2 other threads do nothing but call sync(); after all threads stopped and sync() ran: C10 counters equal the physical entries/weights, C04 resident weight <= max_capacity, C03 (capacity 1 000, everything fits) every written key is resident and a refill with exactly as many fresh unit-weight keys as there is room left is fully retained and evicts nothing; evaluations = inserts issued; non-trivial is counted per 64 inserts (each block races with the maintenance threads)";
 pub const RULE_C05: &str = "real clock, time_to_live of a few ms: one writer per key replaces its value just after the previous one has expired while reader threads spin on get; a get that began (wall clock) at or after the instant the returned value's insert had returned + ttl is a violation; evaluations = successful gets; non-trivial = successful gets within 200 us of the value's deadline; plus the same race on the mock clock: the writer steps the clock by exactly the ttl before each replacement (60 000 generations), non-trivial = generations";
-pub const RULE_C07: &str = "real threads: invalidators call invalidate_all in a loop, writers overwrite a small key set (syncing now and then), readers get; real clock; a get that began (logical counter) after an invalidate_all had returned must not show a value whose insert had returned (wall-clock instant) before that invalidate_all was called; evaluations = successful gets; non-trivial = successful gets that began after at least one completed invalidate_all";
+pub const RULE_C07: &str = "real threads: invalidators call invalidate_all in a loop, writers overwrite a small key set (syncing now and then), readers get; real clock; a get that began (logical counter) after an invalidate_all had returned must not show a value whose insert had returned (wall-clock instant) before that invalidate_all was called; evaluations = successful gets; non-trivial = successful gets that began after at least one completed invalidate_all; plus: one thread runs insert(k); invalidate_all(); get(k); contains_key(k) in a loop beside 1-4 reader threads of the same keys, a round counts (evaluation, non-trivial) if the wall clock moved strictly between the insert's return and the invalidate_all call, and then both lookups must miss";
 pub const RULE_C02: &str = "4-16 real threads issue seeded get/insert/invalidate/sync on 1-4 keys; logical timestamps from a shared atomic counter bracket every call; same history oracle as the schedule engine; evaluations = successful gets checked; non-trivial = gets that returned a value written by another thread";
 
 pub fn stress_worker(a: &WorkerArgs) -> WorkerResult {
@@ -765,6 +914,10 @@ pub fn stress_worker(a: &WorkerArgs) -> WorkerResult {
                 let o = mixed("C04", 4 + a.idx as usize % 4, 8_000 * scale, 6, Some(3 + a.idx % 3), true, None, x);
                 add(o, &mut res, 6);
             }
+            if res.violation.is_none() {
+                let o = reweigh_race("C04", 1 + a.idx as usize % 2, 1 + (a.idx as usize / 2) % 2, 30_000 * scale, 4, 20 + a.idx % 7);
+                add(o, &mut res, 16);
+            }
         }
         "C08" | "C10" | "C11" => {
             let plans: [(usize, u32, Option<u64>, bool, Option<u64>); 4] = [(4, 3, Some(2), true, None), (8, 6, Some(4), true, None), (6, 4, None, false, Some(3)), (3, 2, Some(1), false, None)];
@@ -776,6 +929,12 @@ pub fn stress_worker(a: &WorkerArgs) -> WorkerResult {
                     break;
                 }
             }
+            if res.violation.is_none() && a.prop == "C10" {
+                let plans: [(usize, usize, u64); 4] = [(1, 1, 1), (1, 1, 2), (1, 2, 1), (2, 1, 1)];
+                let (wr, sy, nk) = plans[a.idx as usize % 4];
+                let o = reweigh_race("C10", wr, sy, 40_000 * scale, nk, 10_000);
+                add(o, &mut res, 14);
+            }
             // all keys in one shard of the map: maximal lock contention
             for round in 0..8u64 {
                 if res.violation.is_some() {
@@ -784,6 +943,17 @@ pub fn stress_worker(a: &WorkerArgs) -> WorkerResult {
                 let sel = a.idx + round;
                 let o = mixed_h(&a.prop, 4 + 2 * (sel as usize % 3), 2_500 * scale, 24 + 8 * (sel as u32 % 4), if sel % 2 == 0 { None } else { Some(16) }, false, if sel % 4 >= 2 { Some(3) } else { None }, splitmix(x ^ 99 ^ (round << 20)), true);
                 add(o, &mut res, 10 + round * 16);
+            }
+        }
+        "C03" => {
+            let plans: [(usize, usize, u64); 4] = [(1, 1, 1), (1, 1, 2), (1, 2, 1), (2, 1, 1)];
+            let (wr, sy, nk) = plans[a.idx as usize % 4];
+            for round in 0..4u64 {
+                if res.violation.is_some() {
+                    break;
+                }
+                let o = reweigh_race("C03", wr, sy, 30_000 * scale, nk + round, 1_000);
+                add(o, &mut res, 15 + round * 16);
             }
         }
         "C16" => {
@@ -812,6 +982,10 @@ pub fn stress_worker(a: &WorkerArgs) -> WorkerResult {
             let (iv, wr, rd, nk) = plans[a.idx as usize % 4];
             let o = invalidation_race(iv, wr, rd, 150_000 * scale, nk);
             add(o, &mut res, 5);
+            if res.violation.is_none() {
+                let o = invalidate_beside_readers(1 + a.idx as usize % 4, 40_000 * scale, 1 + a.idx % 3);
+                add(o, &mut res, 13);
+            }
         }
         "C02" => {
             let plans: [(usize, u8, Option<u64>); 4] = [(4, 1, None), (8, 3, None), (16, 4, Some(2)), (6, 2, Some(1))];
